@@ -732,6 +732,10 @@ class Integer(Atomic, CommonMath):
             raise TypeError("invalid constructor datatype")
 
     def encode(self, tag):
+        # the four octets packed below carry -2**31..2**31-1, refuse the rest
+        if not (-0x80000000 <= self.value <= 0x7FFFFFFF):
+            raise ValueError("integer value out of range")
+
         # rip apart the number
         data = bytearray(struct.pack('>I', self.value & 0xFFFFFFFF))
 
